@@ -128,6 +128,8 @@ Record prims_ok (P : prims) : Prop := mkPrimsOk {
   aead_stream : forall a k n ad p,
       aead_seal P a k n ad p = bxor p (aead_ks P a k n (length p)) ++ aead_tag P a k n ad p;
   aead_ks_len : forall a k n l, length (aead_ks P a k n l) = l;
+  (* the keystream for (key, nonce) does not depend on how much of it is requested *)
+  aead_ks_prefix : forall a k n l1 l2, (l1 <= l2)%nat -> firstn l1 (aead_ks P a k n l2) = aead_ks P a k n l1;
   aead_tag_len : forall a k n ad p, length (aead_tag P a k n ad p) = aead_overhead;
   (* CBC over whole blocks (the model panics before calling these on partial blocks) *)
   cbc_rt : forall a k iv p, cbc_dec P a k iv (cbc_enc P a k iv p) = p;
